@@ -106,6 +106,17 @@ STYLES = ['generic', 'field', 'override_of_generic_parent', 'inherited_from_gene
 ORDERS = ['fresh', 'parent_first', 'self_parent_self']
 
 
+class _M2(BaseModel):
+    y: str
+
+
+_M2.__name__ = _M2.__qualname__ = 'M'  # prints like M (same module, same qualified name) but is another type with other fields
+
+
+def _twin_of(T):
+    return list[_M2] if T == list[M] else _M2
+
+
 def make_classes(style, T):
     """fresh classes per case: returns (event class, parent class or None, kwargs for the instance)"""
     U = str if T is not str else int
@@ -190,6 +201,16 @@ def check_type_case(tname, label, value, special=None, style=None, order='fresh'
             bus.on(evcls.__name__, h)
             if order in ('parent_first',) and parent is not None:
                 parent()
+            if order == 'twin_type_first':
+                # an event whose declared result type is a DIFFERENT type that prints exactly like this one (a second model class called M in the same
+                # module, e.g. a schema version built at run time) has been through the bus before: whatever is cached per type must not be keyed by its text
+                twin_cls = type('Twin', (BaseEvent[_twin_of(TY[tname])],), {'__module__': __name__})
+
+                def th(e):
+                    return [{'y': 'a'}] if tname.startswith('list') else {'y': 'a'}
+                bus.on(twin_cls.__name__, th)
+                tev = await bus.dispatch(twin_cls())
+                box['twin'] = [r for r in tev.event_results.values()]
             if order == 'self_parent_self':
                 first = bus.dispatch(evcls(**ekw))
                 await first
@@ -206,6 +227,10 @@ def check_type_case(tname, label, value, special=None, style=None, order='fresh'
     desc = f'type {tname} (declared via {style or "module-level generic"}, history {order}) value {value!r}'
     if len(rs) != 1:
         return [V('wrong_number_of_results', f'{desc}: {rs}', **tags)]
+    for tr_ in box.get('twin', []):
+        good = tr_.status == 'completed' and (isinstance(tr_.result, _M2) or (isinstance(tr_.result, list) and all(isinstance(x, _M2) for x in tr_.result)))
+        if not good:
+            out.append(V('conforming_value_rejected', f'{desc}: the twin type\'s own conforming value ended {tr_.status} {tr_.result!r} {tr_.error!r}', **tags))
     r = rs[0]
     if special == 'exception':
         if r.status != 'error' or r.error is not value or r.result is not None:
@@ -430,6 +455,9 @@ def _type_cases(tier='quick'):
             cases.append(('type', tname, i, None))
         for sp in ('none', 'exception', 'event'):
             cases.append(('type', tname, -1, sp))
+    for tname in ('Model', 'list[Model]'):
+        for i in range(len(TYPES[tname][2])):
+            cases.append(('type', tname, i, None, 'generic', 'twin_type_first'))
     # declaration styles x instantiation histories (class-level caches): every value of every declared type
     for tname in TY:
         if tier != 'thorough' and tname not in ('int', 'str', 'list[int]', 'int|None', "Literal['a','b']", 'Model'):
